@@ -90,7 +90,7 @@ impl ServerMsg for PartialReply {
         S: AsRef<str> + Debug,
     {
         let mut reader = NsReader::from_str(input.as_ref());
-        _ = reader.trim_text(true);
+        _ = reader.trim_text(true).expand_empty_elements(true);
         Self::read_xml(&mut reader, &BytesStart::new("dummy"))
     }
 }
@@ -204,6 +204,16 @@ impl ReadXml for EmptyReply {
                         && errors.is_empty() =>
                 {
                     tracing::debug!(?tag);
+                    this = Some(Self::Ok);
+                }
+                (ResolveResult::Bound(ns), Event::Start(tag))
+                    if ns == xmlns::BASE
+                        && tag.local_name().as_ref() == b"ok"
+                        && this.is_none()
+                        && errors.is_empty() =>
+                {
+                    tracing::debug!(?tag);
+                    _ = reader.read_to_end(tag.to_end().name())?;
                     this = Some(Self::Ok);
                 }
                 (ResolveResult::Bound(ns), Event::Start(tag))
